@@ -7711,8 +7711,8 @@ def FillUnitDatabaseWithPosc(
     f_unit_to_base = MakeCustomaryToBase(0.0, 0.001, 1.0, 0.0)
     f_base_to_unit = MakeBaseToCustomary(0.0, 0.001, 1.0, 0.0)
     db.AddUnit("length", "millimetres", "mm", f_base_to_unit, f_unit_to_base, default_category=None)
-    f_unit_to_base = MakeCustomaryToBase(0.0, 0.001, 1.0, 0.0)
-    f_base_to_unit = MakeBaseToCustomary(0.0, 0.001, 1.0, 0.0)
+    f_unit_to_base = MakeCustomaryToBase(0.0, 1000000, 1.0, 0.0)
+    f_base_to_unit = MakeBaseToCustomary(0.0, 1000000, 1.0, 0.0)
     db.AddUnit("length", "megameter", "Mm", f_base_to_unit, f_unit_to_base, default_category=None)
     f_unit_to_base = MakeCustomaryToBase(0.0, 0.001, 31558150, 0.0)
     f_base_to_unit = MakeBaseToCustomary(0.0, 0.001, 31558150, 0.0)
